@@ -38,6 +38,84 @@ class FuncInfo:
     def __repr__(self):
         return "<func %s>" % self.qualname
 
+    @property
+    def is_generator(self):
+        """does the function's own body (not a nested function) contain yield"""
+        g = getattr(self, "_is_gen", None)
+        if g is None:
+            g = False
+            stack = list(self.node.body)
+            while stack:
+                x = stack.pop()
+                if isinstance(x, (ast.FunctionDef, ast.AsyncFunctionDef, ast.Lambda, ast.ClassDef)):
+                    continue
+                if isinstance(x, (ast.Yield, ast.YieldFrom)):
+                    g = True
+                    break
+                stack.extend(ast.iter_child_nodes(x))
+            self._is_gen = g
+        return g
+
+    @property
+    def yields_in_loops(self):
+        y = getattr(self, "_yil", None)
+        if y is None:
+            y = False
+            for loop in ast.walk(self.node):
+                if isinstance(loop, (ast.For, ast.While, ast.AsyncFor)):
+                    if any(isinstance(x, (ast.Yield, ast.YieldFrom)) for x in ast.walk(loop)):
+                        y = True
+            # yield from <iterable> is a loop as well
+            if any(isinstance(x, ast.YieldFrom) for x in ast.walk(self.node)):
+                y = True
+            self._yil = y
+        return y
+
+    def local_names(self):
+        """parameters and names bound in this function's own body (not in nested functions)"""
+        ln = getattr(self, "_local_names", None)
+        if ln is None:
+            a = self.node.args
+            ln = {x.arg for x in a.posonlyargs + a.args + a.kwonlyargs}
+            if a.vararg:
+                ln.add(a.vararg.arg)
+            if a.kwarg:
+                ln.add(a.kwarg.arg)
+            stack = list(self.node.body)
+            while stack:
+                x = stack.pop()
+                if isinstance(x, (ast.FunctionDef, ast.AsyncFunctionDef, ast.ClassDef)):
+                    ln.add(x.name)
+                    continue
+                if isinstance(x, ast.Lambda):
+                    continue
+                if isinstance(x, ast.Name) and isinstance(x.ctx, (ast.Store, ast.Del)):
+                    ln.add(x.id)
+                if isinstance(x, ast.alias):
+                    ln.add((x.asname or x.name).split(".")[0])
+                if isinstance(x, ast.ExceptHandler) and x.name:
+                    ln.add(x.name)
+                stack.extend(ast.iter_child_nodes(x))
+            self._local_names = ln
+        return ln
+
+    def free_vars(self):
+        """names this nested function (or lambda) reads from an enclosing function's scope"""
+        fv = getattr(self, "_free_vars", None)
+        if fv is None:
+            fv = []
+            if self.parent is not None:
+                own = self.local_names()
+                outer = set()
+                par = self.parent
+                while par is not None:
+                    outer |= par.local_names()
+                    par = par.parent
+                used = {x.id for x in ast.walk(self.node) if isinstance(x, ast.Name) and isinstance(x.ctx, ast.Load)}
+                fv = sorted((used - own) & outer)
+            self._free_vars = fv
+        return fv
+
 
 class ClassInfo:
     def __init__(self, qualname, mod, node):
@@ -46,6 +124,18 @@ class ClassInfo:
         self.node = node
         self.methods = {}
         self.bases = []  # resolved: ("repo", qualname) | ("ext", dotted) | ("builtin", name)
+
+    @property
+    def is_namedtuple(self):
+        return any(b and b[0] == "ext" and b[1] in ("typing.NamedTuple",) for b in self.bases)
+
+    def nt_fields(self):
+        """[(field name, default AST node or None)] of a typing.NamedTuple class, in order"""
+        out = []
+        for st in self.node.body:
+            if isinstance(st, ast.AnnAssign) and isinstance(st.target, ast.Name):
+                out.append((st.target.id, st.value))
+        return out
 
 
 class Module:
